@@ -51,7 +51,7 @@ type Arg struct {
 }
 
 type Snip struct {
-	K    string   `json:"k"`              // nil block t sprintf comment directive snippets fragments value id
+	K    string   `json:"k"`              // nil block t sprintf comment directive snippets fragments value id probe
 	S    []byte   `json:"s,omitempty"`    // block text / format / comment text / directive name (base64: arbitrary bytes)
 	Q    string   `json:"q,omitempty"`    // the same, Go-quoted, for readers only
 	Args []Arg    `json:"args,omitempty"` // t, sprintf
@@ -61,6 +61,45 @@ type Snip struct {
 	P    string   `json:"p,omitempty"`    // expose: package path
 	N    string   `json:"n,omitempty"`    // expose: exposed name
 	Self string   `json:"self,omitempty"` // ROOT only: the package the writer generates into (default example.com/x)
+	Pan  bool     `json:"pan,omitempty"`  // probe: panics when it is rendered (otherwise it yields S)
+}
+
+// probeS is a snippet of the harness' own: it records that it was rendered and yields its text, or panics.
+// Bound to a name the format does not mention it must never be rendered: the rendering of T(format, args)
+// is the format with each placeholder replaced by the rendering of ITS argument, nothing else is rendered
+// (rendering has effects: an ID / PkgExpose / Value argument registers an import, property C03).
+func probeS(text string, panics bool) Snip {
+	x := mk("probe", text)
+	x.Pan = panics
+	return x
+}
+
+type recorder struct {
+	rendered   int      // renderings of probes
+	unexpected []string // renderings of probes bound to names that cannot be a placeholder of their template
+}
+
+type probe struct {
+	text      string
+	panics    bool
+	forbidden string // "" or: why this probe must not be rendered
+	rec       *recorder
+}
+
+func (p *probe) IsNil() bool { return false }
+func (p *probe) Frag(ctx context.Context) iter.Seq[string] {
+	return func(yield func(string) bool) {
+		if p.rec != nil {
+			p.rec.rendered++
+			if p.forbidden != "" {
+				p.rec.unexpected = append(p.rec.unexpected, p.forbidden)
+			}
+		}
+		if p.panics {
+			panic("probe rendered")
+		}
+		yield(p.text)
+	}
 }
 
 func mk(k string, s string) Snip { return Snip{K: k, S: []byte(s), Q: strconv.Quote(s)} }
@@ -147,10 +186,15 @@ func goVal(v *Val) any {
 }
 
 // build constructs the real snippet
-func build(s *Snip) snippet.Snippet {
+func build(s *Snip) snippet.Snippet { return buildRec(s, nil) }
+
+func buildRec(s *Snip, rec *recorder) snippet.Snippet {
+	build := func(s *Snip) snippet.Snippet { return buildRec(s, rec) }
 	switch s.K {
 	case "nil":
 		return nil
+	case "probe":
+		return &probe{text: string(s.S), panics: s.Pan, rec: rec}
 	case "block":
 		return snippet.Block(string(s.S))
 	case "t":
@@ -160,6 +204,10 @@ func build(s *Snip) snippet.Snippet {
 			var inner snippet.Snippet
 			if a.S != nil {
 				inner = build(a.S)
+			}
+			// "@"+name does not occur in the format: no placeholder of this template can have this name
+			if p, ok := inner.(*probe); ok && a.N != "" && !strings.Contains(string(s.S), "@"+a.N) {
+				p.forbidden = fmt.Sprintf("the argument bound to %q was rendered although the format %s has no placeholder @%s", a.N, strconv.Quote(string(s.S)), a.N)
 			}
 			targs = append(targs, snippet.Arg(a.N, inner))
 		}
@@ -214,7 +262,7 @@ func build(s *Snip) snippet.Snippet {
 // force calls Frag without asking IsNil first (what Sprintf does with a Snippet argument)
 type force struct{ s snippet.Snippet }
 
-func (force) IsNil() bool                                   { return false }
+func (force) IsNil() bool                                 { return false }
 func (f force) Frag(ctx context.Context) iter.Seq[string] { return f.s.Frag(ctx) }
 
 const defaultSelf = "example.com/x"
@@ -334,6 +382,9 @@ func coq(s *Snip, inSprintf bool, wi *walkInfo) string {
 		out, ok := wi.ctx.renderOne(force{x})
 		wi.leafTexts = append(wi.leafTexts, out)
 		return "(SOpaque " + core.CoqBool(x.IsNil()) + " " + coqOptBytes(out, ok) + ")"
+	case "probe": // an opaque snippet that is not nil and yields its text, or panics
+		wi.tags["has_probe"] = true
+		return "(SOpaque false " + coqOptBytes(string(s.S), !s.Pan) + ")"
 	}
 	return "SNil"
 }
@@ -343,6 +394,7 @@ type observed struct {
 	Out     string            `json:"out"` // bytes written (before the panic, if any), Go-quoted
 	Msg     string            `json:"panic_value,omitempty"`
 	Imports map[string]string `json:"imports,omitempty"` // ImportTracker.Imports() after the rendering
+	Probes  int               `json:"probes_rendered,omitempty"` // how many times a probe snippet of the harness was rendered
 }
 
 // runLocal executes the real code on one input in THIS process (called in a supervised worker, see worker.go)
@@ -356,23 +408,28 @@ func runLocal(in json.RawMessage) core.Result {
 	var out string
 	var pv any
 	var panicked bool
-	run := func() (string, bool, any, *rctx) {
+	run := func() (string, bool, any, *rctx, *recorder) {
 		ctx := newCtx(s.Self)
 		buf := bytes.NewBuffer(nil)
 		w := ctx.writer(buf)
-		x := build(&s)
+		rec := &recorder{}
+		x := buildRec(&s, rec)
 		p, v := core.Recover(func() { w.Render(x) })
-		return buf.String(), p, v, ctx
+		return buf.String(), p, v, ctx, rec
 	}
 	var ctx *rctx
-	out, panicked, pv, ctx = run()
+	var rec *recorder
+	out, panicked, pv, ctx, rec = run()
 	imports := map[string]string{}
 	for p, n := range ctx.tr.Imports() {
 		imports[p] = n
 	}
-	out2, p2, _, ctx2 := run()
+	out2, p2, _, ctx2, _ := run()
 	if p2 != panicked || (!panicked && (out2 != out || !reflect.DeepEqual(ctx2.tr.Imports(), imports))) {
 		res.GoViolations = append(res.GoViolations, "rendering the same snippet twice gives different results")
+	}
+	if len(rec.unexpected) > 0 {
+		res.GoViolations = append(res.GoViolations, rec.unexpected[0])
 	}
 	o := observed{Panic: panicked, Out: strconv.Quote(out), Imports: imports}
 	if panicked {
@@ -381,6 +438,7 @@ func runLocal(in json.RawMessage) core.Result {
 			o.Msg = o.Msg[:120]
 		}
 	}
+	o.Probes = rec.rendered
 	res.Observed = o
 
 	wi := &walkInfo{tags: map[string]bool{}, ctx: ctx}
@@ -468,6 +526,12 @@ func features(s *Snip) []string {
 				set["t:leading_nl"] = true
 			}
 			for i := range s.Args {
+				if s.Args[i].N != "" && !strings.Contains(f, "@"+s.Args[i].N) {
+					set["t:arg_not_mentioned"] = true
+					if s.Args[i].S != nil && s.Args[i].S.K == "probe" {
+						set["t:probe_not_mentioned"] = true
+					}
+				}
 				if s.Args[i].S == nil || s.Args[i].S.K == "nil" {
 					set["t:nil_arg"] = true
 				} else if isEmptyish(s.Args[i].S) {
